@@ -51,7 +51,7 @@ AXES = {
     "cap_style_val": VALS,
     # "nested-*": an outer styled span that contains a style node no DFXP writer can express (bold only / underline
     # only / empty) - balanced, properly nested
-    "span_style": [None, "italics", "italics+color", "class-defined", "class-undefined", "color-only", "nested-bold", "nested-underline", "nested-empty", "text-align"],
+    "span_style": [None, "italics", "italics+color", "class-defined", "class-undefined", "color-only", "nested-bold", "nested-underline", "nested-empty", "text-align", "layout-on-text-only"],
     "span_val": VALS,
     "set_style_id": [None] + VALS[1:7] + ["p", "default"],
     "set_style_val": VALS,
@@ -63,7 +63,8 @@ AXES = {
     "cap_layout": LAYOUTS,
     "span_layout": LAYOUTS,
     # True: captions 1 and 2 share their times (one run); "aba": captions 1 and 3 do, caption 2 lies between (three runs)
-    "concurrent": [False, True, "aba"],
+    # "near": captions 1 and 2 differ by less than a millisecond at both ends (not identical: separate runs)
+    "concurrent": [False, True, "aba", "near"],
 }
 OPTS = [
     {},
@@ -111,6 +112,10 @@ def build(cfg):
             nodes += [CaptionNode.create_break(), CaptionNode.create_style(True, outer, layout_info=L), CaptionNode.create_text("sty", layout_info=L),
                       CaptionNode.create_style(True, inner, layout_info=L), CaptionNode.create_text("in", layout_info=L), CaptionNode.create_style(False, inner, layout_info=L),
                       CaptionNode.create_text("led", layout_info=L), CaptionNode.create_style(False, outer, layout_info=L)]
+        elif sp == "layout-on-text-only":
+            # the text inside an (unpositioned) italic span carries a layout that nothing else uses
+            L = mk_layout(cfg["span_layout"]) or mk_layout(LAYOUTS[2])
+            nodes += [CaptionNode.create_break(), CaptionNode.create_style(True, {"italics": True}), CaptionNode.create_text("styled", layout_info=L), CaptionNode.create_style(False, {"italics": True})]
         elif sp:
             content = {
                 "italics": {"italics": True},
@@ -127,7 +132,7 @@ def build(cfg):
         if cfg["cap_style_key"]:
             style = {cfg["cap_style_key"]: cfg["cap_style_val"]}
         cl.append(Caption(1000000, 2000000, nodes, style=style, layout_info=mk_layout(cfg["cap_layout"])))
-        t2 = (1000000, 2000000) if cfg["concurrent"] is True else (3000000, 4000000)
+        t2 = (1000000, 2000000) if cfg["concurrent"] is True else ((1000400, 2000300) if cfg["concurrent"] == "near" else (3000000, 4000000))
         cl.append(Caption(t2[0], t2[1], [CaptionNode.create_text("second " + lang[:2])], layout_info=mk_layout(cfg["other_lang_layout"]) if li else (mk_layout(LAYOUTS[1]) if own else None)))
         t3 = (1000000, 2000000) if cfg["concurrent"] == "aba" else (5000000, 6000000)
         cl.append(Caption(t3[0], t3[1], [CaptionNode.create_text("third")], layout_info=mk_layout(LAYOUTS[3]) if own and not li else None))
